@@ -88,7 +88,7 @@ class Run:
         for t in ths:
             t.start()
         for t in ths:
-            t.join(timeout=30)
+            t.join(timeout=180)     # a schedule takes milliseconds; the margin is for a machine busy with other checks
         if any(t.is_alive() for t in ths):
             raise RuntimeError(f"schedule {self.plan[:4]} deadlocked (first={first})")
         return self.results, self.lines
